@@ -93,6 +93,7 @@ func builtinChordList(c *Ctx) ([]yChordDef, bool) {
 
 func init() {
 	register("c16", Def{
+		Debug: true,
 		Rule: "built-ins: `info attr list` vs `gen attr -d 20` and the English names; `info chord list`; every built-in chord played by name and by display. user dictionaries: every dictionary of one " +
 			"or two chord entries over a pool (fresh names, an override of MinorTriad/m, extends in {none, user names, built-in names and displays, dangling}, attributes in {built-in, user, dangling}, " +
 			"self/mutual cycles) x attribute-file variants (none, two user attributes, an unnamed attribute) - quick: all one-entry dictionaries + a seeded sample of two-entry ones, thorough: all; " +
